@@ -43,7 +43,7 @@ func traces(d []float64, n int) ([]c10.Trace, error) {
 // arcInfo: the largest radius, and how close the arcs are to the limit where the radii just
 // fit the chord (lambda = 1): there a relative perturbation e of the radii moves the centre by
 // about sqrt(e), so output rounded to P digits cannot describe the arc to P digits.
-func arcInfo(d []float64) (arcs int, maxR, maxLam float64) {
+func arcInfo(d []float64) (arcs int, maxR, maxLam float64, twilight bool) {
 	sps, err := oracle.Decode(d)
 	if err != nil {
 		return
@@ -53,12 +53,22 @@ func arcInfo(d []float64) (arcs int, maxR, maxLam float64) {
 			if s.Kind == oracle.CmdArc {
 				arcs++
 				maxR = math.Max(maxR, math.Max(s.Rx, s.Ry))
-				maxLam = math.Max(maxLam, c10.ArcLambda(s.P0, s.Rx, s.Ry, s.Phi, s.P1))
+				lam := c10.ArcLambda(s.P0, s.Rx, s.Ry, s.Phi, s.P1)
+				maxLam = math.Max(maxLam, lam)
+				// radii fit the chord by a margin of 1e-12..1e-8: whether this is "exactly half
+				// an ellipse" (radii scaled up to fit, stored rounded) or a slightly shorter arc
+				// cannot be told; the two readings differ by up to sqrt(1e-8) of the radius
+				if 1-lam > 1e-12 && 1-lam < 1e-8 {
+					twilight = true
+				}
 			}
 		}
 	}
 	return
 }
+
+// TwilightTol: see arcInfo.
+const TwilightTol = 2e-4
 
 func sameData(a, b []float64, rel float64) (bool, string) {
 	if len(a) != len(b) {
@@ -135,7 +145,7 @@ func checkPrinter(r *fw.R, p *canvas.Path) {
 		return
 	}
 	want, _ := traces(data, denseN)
-	arcs, maxR, maxLam := arcInfo(data)
+	arcs, maxR, maxLam, twilight := arcInfo(data)
 	// the size of the numbers that describe the path: coordinates and radii (an angle printed
 	// to P digits moves a point by that relative amount of the radius)
 	scale := math.Max(c10.Scale(want), maxR)
@@ -150,7 +160,14 @@ func checkPrinter(r *fw.R, p *canvas.Path) {
 		if ok, why := sameData(data, q.Data(), 1e-9); ok {
 			r.Outcome("string-roundtrip:equal")
 		} else {
-			violate(r, "string-roundtrip:differs", fmt.Sprintf("%q parsed back as %s: %s", s, oracle.Fmt(q.Data()), why))
+			// tell a different spelling of the same trace from a different trace
+			class := "string-roundtrip:differs(geometry differs)"
+			if got, derr := traces(q.Data(), denseN); derr == nil {
+				if m, _ := c10.CompareDirected(want, got, 1e-9*math.Max(1, c10.Scale(want))); m == "" {
+					class = "string-roundtrip:differs(same trace, other commands)"
+				}
+			}
+			violate(r, class, fmt.Sprintf("%q parsed back as %s: %s", s, oracle.Fmt(q.Data()), why))
 		}
 	}
 
@@ -176,6 +193,9 @@ func checkPrinter(r *fw.R, p *canvas.Path) {
 				// rounding the radii by eps moves the centre by eps*r/(2 sqrt(1-lambda))
 				t = tol * (1 + 1/math.Sqrt(1-maxLam))
 				label += " (arcs)"
+			}
+			if twilight {
+				t = math.Max(t, TwilightTol*maxR)
 			}
 			msg, worst := compareGeom(want, got, t)
 			if msg != "" {
@@ -224,7 +244,7 @@ func checkPrinter(r *fw.R, p *canvas.Path) {
 				}
 			default:
 				r.Outcome(fmt.Sprintf("pdf P=%d:same geometry (arcs, piecewise)", P))
-				r.Max("pdf: worst Bézier-for-arc deviation / larger radius", worstArc)
+				r.Max(fmt.Sprintf("pdf P=%d: worst Bézier-for-arc deviation / larger radius", P), worstArc)
 			}
 		}
 
@@ -244,6 +264,10 @@ func checkPrinter(r *fw.R, p *canvas.Path) {
 			t := tol
 			if arcs > 0 {
 				t = PSSlack * tol
+			}
+			if twilight {
+				t = math.Max(t, TwilightTol*maxR)
+				r.Outcome("arc in the radii-limit twilight zone: loose tolerance")
 			}
 			msg, worst := compareGeom(want, c10.Dense(subs, denseN), t)
 			if msg != "" {
@@ -359,8 +383,13 @@ func matchPDF(sps []oracle.Subpath, got []c10.RSub, tol float64) (msg string, ma
 						}
 						prev = ang
 					}
-					if g.P1.Dist(s.P1) <= tol && math.Abs(prev-math.Abs(dth)) < 0.05 {
+					if g.P1.Dist(s.P1) <= tol+PDFArcTol*rmax && math.Abs(prev-math.Abs(dth)) < 0.05 {
 						done = true
+						// the Béziers may end a hair off the arc's end point; a connecting
+						// line of that size is part of the replacement
+						if j < len(gs) && gs[j].Kind == oracle.CmdLine && gs[j].P0.Dist(gs[j].P1) <= tol+PDFArcTol*rmax && gs[j].P1.Dist(s.P1) <= tol {
+							j++
+						}
 					} else if prev > math.Abs(dth)+0.05 {
 						return fmt.Sprintf("subpath %d segment %d: Bézier pieces overshoot the arc (%.6g of %.6g rad)", i, k, prev, math.Abs(dth)), true, worstArc
 					}
@@ -422,7 +451,7 @@ func printerFamilies(tier string) []fw.Family {
 // edgeFamily: numeric edge values through the printers (minifier: leading zeros, exponents,
 // signs next to flags and digits, rotations of 90 degrees and more, horizontal/vertical lines).
 func edgeFamily() fw.Family {
-	vals := []float64{0, 1, -1, 0.5, -0.5, 1e-9, -1.25, 0.1 + 0.2, 100, 123456.7890625, 1e9, 1e-5, 12345678.9}
+	vals := []float64{0, 1, -1, 0.5, -0.5, 1e-9, -1.25, 0.1 + 0.2, 100, 99.9999996, 0.99999999996, 123456.7890625, 1e9, 1e-5, 12345678.9}
 	rots := []float64{0, 30, 90, 135, 179.5}
 	type ek struct{ kind, a, b, c int }
 	decode := func(i int64) ek {
@@ -760,5 +789,24 @@ func Prop() *fw.Property {
 			"ParseSVG documents avoid <text> (no system fonts in the sandbox)",
 		},
 		Families: families,
+		KnownPredicates: map[string]func(v *fw.Violation) bool{
+			// one matcher per root cause seen on the pinned tree (classes are specific enough)
+			"ellipse-centre-shortcut":        classIs("ps:geometry(P=8)", "ps:geometry(P=3)", "pdf:geometry(P=8)", "pdf:geometry(P=3)"),
+			"parser-whitespace-only-panics":  classIs("parse:panic"),
+			"parsesvg-bad-path-data-panics":  classIs("parsesvg:panic"),
+			"lineto-merges-reversal":         classIs("parse:malformed-result:zero-length-segment", "svg-roundtrip:geometry(P=8)", "svg-roundtrip:geometry(P=3)"),
+			"non-canonical-data-from-append": classIs("string-roundtrip:differs(same trace, other commands)"),
+		},
+	}
+}
+
+func classIs(cs ...string) func(v *fw.Violation) bool {
+	return func(v *fw.Violation) bool {
+		for _, c := range cs {
+			if v.Class == c {
+				return true
+			}
+		}
+		return false
 	}
 }
